@@ -38,6 +38,7 @@ type Cfg struct {
 	TLSCert     string            `json:"tlsCert"` // PEM files => TLSProvider
 	TLSKey      string            `json:"tlsKey"`
 	TLSClientCA string            `json:"tlsClientCA"` // require client certs signed by this
+	TLSRootCA   string            `json:"tlsRootCA"`   // trust this certificate when the plugin dials the host (brokered connections); sets ServerName localhost
 	CookieKey   *string           `json:"cookieKey"`
 	CookieValue *string           `json:"cookieValue"`
 	LogLevel    string            `json:"logLevel"`
@@ -47,6 +48,8 @@ type Cfg struct {
 	Ctl         string            `json:"ctl"`
 	PreWrite    *WritePlan        `json:"preWrite"` // issued the moment serving starts
 	StartedFile string            `json:"startedFile"`
+	UnsetEnv    []string          `json:"unsetEnv"` // emulate an older plugin that does not know these variables
+	TmpDir      string            `json:"tmpDir"` // private sandbox: becomes this process' TMPDIR (the host's own TMPDIR would otherwise win in the inherited environment)
 
 	// raw
 	LineHex    string `json:"lineHex"`
@@ -95,6 +98,12 @@ func main() {
 	if err := json.Unmarshal(b, &cfg); err != nil {
 		fmt.Fprintln(os.Stderr, "vplugin: cfg:", err)
 		os.Exit(64)
+	}
+	if cfg.TmpDir != "" {
+		os.Setenv("TMPDIR", cfg.TmpDir)
+	}
+	for _, k := range cfg.UnsetEnv {
+		os.Unsetenv(k)
 	}
 	if cfg.StartedFile != "" {
 		os.WriteFile(cfg.StartedFile, []byte(strconv.Itoa(os.Getpid())), 0o644)
@@ -159,6 +168,11 @@ func main() {
 				return nil, err
 			}
 			tc := &tls.Config{Certificates: []tls.Certificate{c}, MinVersion: tls.VersionTLS12}
+			if cfg.TLSRootCA != "" {
+				ca, _ := os.ReadFile(cfg.TLSRootCA)
+				tc.RootCAs = vp.PoolOf(ca)
+				tc.ServerName = "localhost"
+			}
 			if cfg.TLSClientCA != "" {
 				ca, _ := os.ReadFile(cfg.TLSClientCA)
 				tc.ClientCAs = vp.PoolOf(ca)
